@@ -542,6 +542,30 @@ pub fn ladder_inputs(ty: i32, n: u64, with_m: bool, backing: usize) -> Vec<(Stri
             }
             out.push((format!("{} declaring {} {} (m={}), {} present", type_name(ty), n, what, with_m, backing), shp, mk_shx(50, words)));
         }
+        if backing == 4 {
+            // the declared points need no x,y at all: the only part starts at (or just before) the
+            // end of the points, or there is no part; what follows (Z range, Z array, M range,
+            // M array) is then reached with nothing having been read for the declared count
+            for (parts, first, what) in [(1u64, n, "one part starting at the last point's end"), (1, n - 1, "one part holding the last point only"), (0, 0, "no part")] {
+                let content = content_size(ty, parts as usize, n as usize, with_m) as u64;
+                let words = clamp_words(content);
+                let mut shp = hdr(ty, clamp_words(100 + 8 + content));
+                shp.extend_from_slice(&1i32.to_be_bytes());
+                shp.extend_from_slice(&words.to_be_bytes());
+                shp.extend_from_slice(&ty.to_le_bytes());
+                shp.extend_from_slice(&[0u8; 32]);
+                shp.extend_from_slice(&(parts as i32).to_le_bytes());
+                shp.extend_from_slice(&(n as i32).to_le_bytes());
+                if parts == 1 {
+                    shp.extend_from_slice(&(first as i32).to_le_bytes());
+                    if ty == 31 {
+                        shp.extend_from_slice(&0i32.to_le_bytes());
+                    }
+                }
+                shp.extend_from_slice(&[0u8; 96]);
+                out.push((format!("{} declaring {} points (m={}), {}", type_name(ty), n, with_m, what), shp, mk_shx(50, words)));
+            }
+        }
     }
     out
 }
